@@ -58,8 +58,9 @@ def run(ctx):
     rep.guarded("macros", "verif_harness::macros", lambda: rule_macros(facts, rep))
     rep.guarded("atomic", "colorchoice::USER", lambda: rule_atomic(facts, rep))
     rep.guarded("atomic", "colorchoice::ColorChoice", lambda: rule_register(facts, rep))
+    rep.guarded("writers", "colorchoice::ColorChoice::write_global", lambda: rule_writers(facts, rep))
     rep.guarded("positive", "verif_harness::positive", lambda: rule_positive(facts, rep))
-    for r, n in (("sealed", 13), ("overrides", 3), ("one-lock", 35), ("helpers", 6), ("macros", 14), ("atomic", 10), ("positive", 2)):
+    for r, n in (("sealed", 13), ("overrides", 3), ("one-lock", 35), ("helpers", 6), ("macros", 14), ("atomic", 10), ("writers", 2), ("positive", 2)):
         rep.floor(r, n)
 
 
@@ -334,3 +335,37 @@ def rule_positive(facts, rep):
     b = facts.body("verif_harness", "verif_harness::positive::two_step")
     ops = [hir.callee(n).split("::")[-1] for n in hir.walk(b["hir"]) if n.get("k") == "call" and hir.callee(n).startswith("core::sync::atomic::Atomic")]
     rep.check(ops == ["load", "store"], "positive", b["path"], "two-step-rmw-is-recognised", f"{ops}", loc(b))
+
+
+WRITERS_ALLOWED = {
+    # the register's own setter, and the documented user-facing wrapper of it
+    "colorchoice::ColorChoice::write_global": ("colorchoice::AtomicChoice::set",),
+    "colorchoice_clap::Color::write_global": ("colorchoice::ColorChoice::write_global",),
+}
+
+
+def rule_writers(facts, rep):
+    """A read returns the initial value or a value *some thread wrote*: nothing in the workspace's libraries writes the register as
+    a side effect of something else (who-may-call over the resolved callees of every crate: `write_global` / `AtomicChoice::set`
+    are called by the register's setter and its clap wrapper only)."""
+    import os
+    targets = ("colorchoice::ColorChoice::write_global", "colorchoice::AtomicChoice::set")
+    crates = sorted(f[:-5] for f in os.listdir(facts.fdir) if f.endswith(".json") and f[:-5] != "verif_harness")
+    hidden, seen = [], 0
+    for crate in crates:
+        for b in facts.bodies(crate):
+            if "hir" not in b or "::tests::" in b["path"] or "::test::" in b["path"]:
+                continue
+            for n in hir.walk(b["hir"]):
+                if n.get("k") == "call" and hir.callee(n) in targets:
+                    owner = b["path"] if b.get("kind") != "Closure" else (b.get("parent") or b["path"])
+                    if hir.callee(n) in WRITERS_ALLOWED.get(owner, ()):
+                        seen += 1
+                    else:
+                        hidden.append(f"{owner} calls {hir.callee(n).split('::')[-1]} (line {n.get('ln')})")
+                if n.get("k") == "def" and n.get("path") in targets:
+                    hidden.append(f"{b['path']} takes {n['path'].split('::')[-1]} as a function value")
+    rep.count(len(crates))
+    rep.check(not hidden, "writers", "colorchoice::ColorChoice::write_global", "no-hidden-writer",
+              f"{len(crates)} crates scanned, {seen} legitimate call sites; the global choice is written as a side effect by: {hidden}"[:400], "")
+    rep.check(seen >= 2, "writers", "colorchoice::ColorChoice::write_global", "setter-sites-found", f"{seen}", "")
